@@ -16,7 +16,7 @@ ID = "C18"
 GUARD_KERNELS = True
 SHRINK_LISTS = ("ops",)
 SHRINK_MIN = {"nsblk": 4, "nsub": 1, "nchans": 1, "gulp": 1, "nsamps": 1}
-SHRINK_SIMPLE = {"earlier_same_path": False}
+SHRINK_SIMPLE = {"earlier_same_path": False, "gzip": False}
 LAYOUTS = [("AABBCRCI", 4), ("AABBCRCI", 4), ("STOKE", 4), ("STOKE", 4), ("AABB", 2), ("INTEN", 1)]
 
 
@@ -53,7 +53,7 @@ def generate(rng, tier) -> dict:
             ops.append({"op": rng.choice(["collapse", "bandpass"]), "gulp": rng.choice([3, nsblk, nsblk + 1, N, rng.randint(1, N)])})
     return {"nbits": nbits, "nsblk": nsblk, "nsub": nsub, "nchans": nchans, "pol": pol, "npol": npol,
             "ascending": rng.random() < 0.4, "scl": rng.random() < 0.6, "zero_off": rng.choice([0.0, 0.0, 2.0]),
-            "dseed": rng.randrange(1 << 30), "ops": ops, "earlier_same_path": rng.random() < 0.25}
+            "dseed": rng.randrange(1 << 30), "ops": ops, "earlier_same_path": rng.random() < 0.25, "gzip": rng.random() < 0.2}
 
 
 def fixup(sc):
@@ -170,6 +170,16 @@ def execute(sc, ctx) -> None:
         os.unlink(path)
         ctx.probe("earlier-file-at-the-same-path")
     model, meta = write_psrfits(path, sc)
+    if sc.get("gzip"):
+        # the same observation stored gzip-compressed (astropy opens .gz transparently)
+        import gzip
+        import shutil
+
+        with open(path, "rb") as fi, gzip.open(path + ".gz", "wb") as fo:
+            shutil.copyfileobj(fi, fo)
+        os.unlink(path)
+        path = path + ".gz"
+        ctx.probe("gzip-compressed-file")
     N, nchans, nsblk = meta["N"], sc["nchans"], sc["nsblk"]
     info0 = {"nsblk": nsblk, "nsub": sc["nsub"], "nchans": nchans, "nbits": sc["nbits"], "pol": sc["pol"], "ascending": sc["ascending"]}
     ctx.sig += [sc["pol"], f"nbits{sc['nbits']}", "asc" if sc["ascending"] else "desc"]
